@@ -178,3 +178,26 @@ var TowerLeaves = []string{
 }
 
 const TowerPrelude = "label $l | 0 as $x | def f: if . == null then 0 elif type == \"number\" and . < 2 then . + 1 | f else . end; def g(a): [a]; def h($v): $v; "
+
+// GrammarPaths is the path-safe grammar of C02: navigation forms composed by pipe,
+// comma, bindings and optional access.
+func GrammarPaths() *gen.Grammar {
+	return &gen.Grammar{
+		Name: "paths",
+		Atoms: gen.Atoms(".", ".a", ".b", ".[0]", ".[1]", ".[-1]", ".[]", ".[0:1]", ".[1:]", ".[:1]", "..", ".a?", ".[]?", "empty",
+			`getpath(["a","b"])`, `select(type == "number")`, "first(.[]?)", "limit(1; .[]?)", "(if .a? then .a else .b? end)", "(.a? // .b?)",
+			"recurse(.[]?; . != null)", "error", ".a.b", ".a[0]", "last(.[]?)", `.["a"]`),
+		Forms: []gen.Form{
+			gen.Pipe, gen.Comma,
+			gen.TL("as", ". as $x | %0", 1, pipe),
+			gen.TL("bind", "%0 as $x | %1", 2, pipe, term),
+			gen.T("opt", "%0?", 1, term),
+			gen.T("paren", "(%0)", 1),
+			gen.T("select", "select(%0)", 1),
+			gen.T("first", "first(%0)", 1),
+			gen.Alt,
+			gen.T("if", "if %0 then %1 else %2 end", 3),
+			gen.T("recurse", "recurse(%0)", 1),
+		},
+	}
+}
